@@ -87,6 +87,69 @@ fn idents(text: &str) -> Vec<String> {
     v
 }
 
+/// Builtin names and operators of a (minimised) program: strings, numbers, field names and variables
+/// are dropped so that the same defect keeps the same signature whatever data triggered it.
+fn culprit(text: &str) -> String {
+    let toks = lex(text);
+    let mut v: Vec<String> = vec![];
+    let mut prev = String::new();
+    for t in &toks {
+        let c0 = t.chars().next().unwrap_or(' ');
+        let keep = if c0 == '"' || c0.is_ascii_digit() || c0 == '$' || c0 == ' ' || matches!(t.as_str(), "infinite" | "nan" | "null" | "true" | "false") {
+            false
+        } else if c0.is_ascii_alphabetic() || c0 == '_' || c0 == '@' {
+            prev != "."
+        } else {
+            "*+-/%=:?".contains(c0)
+        };
+        if keep && !v.contains(t) {
+            v.push(t.clone());
+        }
+        prev = t.clone();
+    }
+    // control wrappers are never the crash site; operators only matter when no builtin is left
+    v.retain(|t| t != "try" && t != "catch");
+    if v.iter().any(|t| t.chars().next().map_or(false, |c| c.is_ascii_alphabetic() || c == '@' || c == '_')) {
+        v.retain(|t| t.chars().next().map_or(false, |c| c.is_ascii_alphabetic() || c == '@' || c == '_'));
+    }
+    v.truncate(4);
+    if v.is_empty() {
+        "-".into()
+    } else {
+        v.join("+")
+    }
+}
+
+/// Two-phase minimisation: AST reductions first (drops whole wrappers / composed pieces cheaply),
+/// then token-level ddmin on the remaining text.
+fn minimize_prog(prog: &Prog, pred: &dyn Fn(&str) -> bool, max_evals: usize, early: &dyn Fn(&str) -> bool) -> String {
+    let mut text = prog.text.clone();
+    let structured = !matches!(&prog.ast, jqprog::E::Raw(_, _, tag) if *tag == "rawtext");
+    let mut evals = 0;
+    if structured {
+        let mut best = prog.ast.clone();
+        'outer: loop {
+            for cand in jqprog::shrink_candidates(&best) {
+                if evals >= max_evals / 2 {
+                    break 'outer;
+                }
+                let t = jqprog::print(&cand);
+                evals += 1;
+                if pred(&t) {
+                    if early(&t) {
+                        return t;
+                    }
+                    best = cand;
+                    continue 'outer;
+                }
+            }
+            break;
+        }
+        text = jqprog::print(&best);
+    }
+    minimize_text(&text, pred, max_evals.saturating_sub(evals).max(20), early)
+}
+
 fn lex(text: &str) -> Vec<String> {
     let mut toks = vec![];
     let cs: Vec<char> = text.chars().collect();
@@ -118,7 +181,7 @@ fn lex(text: &str) -> Vec<String> {
 }
 
 /// ddmin over tokens: smallest token subsequence for which `pred` still holds (bounded work).
-fn minimize_text(text: &str, pred: &dyn Fn(&str) -> bool) -> String {
+fn minimize_text(text: &str, pred: &dyn Fn(&str) -> bool, max_evals: usize, early: &dyn Fn(&str) -> bool) -> String {
     let mut toks = lex(text);
     if toks.len() > 400 {
         return text.to_string();
@@ -129,7 +192,7 @@ fn minimize_text(text: &str, pred: &dyn Fn(&str) -> bool) -> String {
         let mut i = 0;
         let mut progressed = false;
         while i < toks.len() {
-            if evals > 600 {
+            if evals > max_evals {
                 return toks.concat();
             }
             let end = (i + chunk).min(toks.len());
@@ -139,6 +202,9 @@ fn minimize_text(text: &str, pred: &dyn Fn(&str) -> bool) -> String {
             if !cand.is_empty() && pred(&cand.concat()) {
                 toks = cand;
                 progressed = true;
+                if early(&toks.concat()) {
+                    return toks.concat();
+                }
             } else {
                 i += chunk;
             }
@@ -189,12 +255,25 @@ fn crash_of(text: &str, input: &[u8]) -> (Option<Crash>, Option<(Outcome, Outcom
     (None, Some((f, g)), true)
 }
 
+/// panic location without line number, toolchain hash or registry prefix
+fn loc_sig(loc: &str) -> String {
+    let l = panic_sig(loc);
+    if l.starts_with("/rustc/") {
+        // inside the standard library: the exact file depends on the operand, not on the defect
+        return "std".to_string();
+    }
+    if let Some(i) = l.find("/registry/src/") {
+        return l[i + 14..].splitn(2, '/').nth(1).unwrap_or(&l).to_string();
+    }
+    l
+}
+
 fn crash_sig(c: &Crash, culprit: &str) -> String {
-    format!("C30/{}/panic@{}/{}/{}", c.stage, panic_sig(&c.loc), norm_msg(&c.msg), culprit)
+    format!("C30/{}/panic@{}/{}/{}", c.stage, loc_sig(&c.loc), norm_msg(&c.msg), culprit)
 }
 
 fn same_crash(a: &Crash, b: &Crash) -> bool {
-    a.stage == b.stage && panic_sig(&a.loc) == panic_sig(&b.loc) && norm_msg(&a.msg) == norm_msg(&b.msg)
+    a.stage == b.stage && loc_sig(&a.loc) == loc_sig(&b.loc) && norm_msg(&a.msg) == norm_msg(&b.msg)
 }
 
 pub fn gen_input(u: &mut Src) -> J {
@@ -215,7 +294,57 @@ pub fn gen_input(u: &mut Src) -> J {
     v
 }
 
-fn check_prog(prog: &Prog, doc: &J, st: &mut Stats, cli_sample: bool) -> Result<(), Fail> {
+/// `succinctly jq -c -f <filter> <input>` under `ulimit -v` 6 GiB. None = timed out.
+fn run_cli(text: &str, input: &str) -> Option<cli::CliOut> {
+    let fp = cli::write_tmp("c30-filter", text.as_bytes());
+    let ip = cli::write_tmp("c30-input", input.as_bytes());
+    let cmd = format!("ulimit -v 6291456; ulimit -c 0; exec \"$0\" jq -c -f \"$1\" \"$2\"");
+    let out = cli::run_with("/bin/sh", &["-c", &cmd, &cli::cli_path(), fp.to_str().unwrap_or(""), ip.to_str().unwrap_or("")], None, std::time::Duration::from_secs(5), &[]);
+    let _ = std::fs::remove_file(&fp);
+    let _ = std::fs::remove_file(&ip);
+    if out.timed_out {
+        None
+    } else {
+        Some(out)
+    }
+}
+
+/// How a CLI run crashed: None = it did not (or only a plausible allocation failure).
+#[derive(Clone, Debug, PartialEq)]
+struct CliCrash {
+    how: String,
+    loc: String,
+    msg: String,
+    nesting_guard: bool,
+    signal: bool,
+}
+
+fn cli_crash(out: &cli::CliOut) -> Option<CliCrash> {
+    if !out.crashed() {
+        return None;
+    }
+    let err = out.stderr_str();
+    let mut how = match (out.code, out.signal) {
+        (_, Some(s)) => format!("signal-{}", s),
+        (Some(c), _) => format!("exit-{}", c),
+        _ => "?".into(),
+    };
+    if err.contains("overflowed its stack") {
+        how = "stack-overflow".into();
+    }
+    if let Some(i) = err.find("memory allocation of ") {
+        let n: String = err[i + 21..].chars().take_while(|c| c.is_ascii_digit()).collect();
+        match n.parse::<u128>() {
+            Ok(n) if n < (1u128 << 40) => return None, // plausible request that met the limit
+            _ => how = "impossible-allocation".into(),
+        }
+    }
+    let loc = err.split("panicked at ").nth(1).and_then(|r| r.split(|c| c == ',' || c == '\n').next()).unwrap_or("-").trim_end_matches(':').to_string();
+    let msg = err.lines().skip_while(|l| !l.contains("panicked at")).nth(1).unwrap_or("").to_string();
+    Some(CliCrash { how, loc, nesting_guard: err.contains("nesting depth exceeds limit of"), msg, signal: out.signal.is_some() })
+}
+
+fn check_prog(prog: &Prog, doc: &J, st: &mut Stats, cli_sample: bool, known: &[String]) -> Result<(), Fail> {
     let input = gjson::to_compact(doc);
     let text = &prog.text;
     let depth = doc.depth();
@@ -223,6 +352,50 @@ fn check_prog(prog: &Prog, doc: &J, st: &mut Stats, cli_sample: bool) -> Result<
     st.size(text.len());
     st.class(&format!("family:{}", prog.family));
     st.evals(1);
+    if let Ok(dir) = std::env::var("VH_C30_TRACE") {
+        let _ = std::fs::write(format!("{}/{}-{}", dir, std::process::id(), st.cur_case), format!("{}\n<<< {}\n", text, input.chars().take(300).collect::<String>()));
+    }
+    // Programs that may abort the process (extreme operands, deep nesting) go through the CLI first:
+    // a separate process can die without taking the worker down, which gives aborts a narrow,
+    // minimised signature instead of the worker-level `process-abort/<kind>`.
+    let abort_prone = jqprog::big_number_in_text(text, 5) || text.contains("infinite") || prog.nest >= 100 || depth >= 100;
+    let mut cli_exit101: Option<CliCrash> = None;
+    if (abort_prone || cli_sample) && cli::cli_available() && text.len() < 100_000 {
+        st.class("cli-run");
+        st.evals(1);
+        match run_cli(text, &input) {
+            None => {
+                st.class("cli-timeout-discarded");
+                st.discard();
+                return Ok(());
+            }
+            Some(out) => {
+                if let Some(c) = cli_crash(&out) {
+                    if c.nesting_guard && deep_capable(text, depth, prog.nest) {
+                        st.class("documented-nesting-guard-panic");
+                    } else if c.signal || c.how != "exit-101" {
+                        // abort: a listed finding is recognised without minimisation (each CLI crash is slow)
+                        let sig0 = format!("C30/cli-abort/{}/{}", c.how, culprit(text));
+                        if known.iter().any(|k| *k == sig0) {
+                            return Err(Fail::new(sig0, json!({"filter": text.chars().take(2000).collect::<String>(), "input": input.chars().take(4000).collect::<String>(), "cli": true})));
+                        }
+                        // otherwise minimise through the CLI, then report
+                        let pred = |t: &str| -> bool { run_cli(t, &input).and_then(|o| cli_crash(&o)).map_or(false, |c2| c2.how == c.how) };
+                        let how = c.how.clone();
+                        let early = |t: &str| -> bool { let s1 = format!("C30/cli-abort/{}/{}", how, culprit(t)); known.iter().any(|k| *k == s1) };
+                        let min = minimize_prog(prog, &pred, 150, &early);
+                        return Err(Fail::new(
+                            format!("C30/cli-abort/{}/{}", c.how, culprit(&min)),
+                            json!({"filter": min, "original_filter": text.chars().take(2000).collect::<String>(), "input": input.chars().take(4000).collect::<String>(), "exit": out.code, "signal": out.signal,
+                                   "stderr_tail": out.stderr_str().chars().take(400).collect::<String>(), "cli": true}),
+                        ));
+                    } else {
+                        cli_exit101 = Some(c);
+                    }
+                }
+            }
+        }
+    }
     let (crash, outs, parsed) = crash_of(text, input.as_bytes());
     st.class(if parsed { "parses" } else { "parse-error" });
     if parsed {
@@ -244,54 +417,66 @@ fn check_prog(prog: &Prog, doc: &J, st: &mut Stats, cli_sample: bool) -> Result<
         if is_nesting_guard(&c.msg) && deep_capable(text, depth, prog.nest) {
             st.class("documented-nesting-guard-panic");
             st.sample("nesting-guard", || json!({"filter": text.chars().take(300).collect::<String>(), "stage": c.stage, "loc": c.loc, "msg": c.msg}));
-        } else {
-            // minimise the program text while the same crash persists; culprit = its identifiers
-            let pred = |t: &str| -> bool { matches!(crash_of(t, input.as_bytes()).0, Some(ref c2) if same_crash(&c, c2)) };
-            let min = minimize_text(text, &pred);
-            let mut ids = idents(&min);
-            ids.truncate(3);
-            let culprit = if ids.is_empty() { "-".to_string() } else { ids.join("+") };
-            return Err(Fail::new(
-                crash_sig(&c, &culprit),
-                json!({"filter": min, "original_filter": text.chars().take(2000).collect::<String>(), "input": input.chars().take(4000).collect::<String>(), "stage": c.stage, "panic_location": c.loc, "panic_message": c.msg}),
-            ));
+            return Ok(());
         }
+        // minimise the program text while the same crash persists; culprit = its identifiers
+        let pred = |t: &str| -> bool { matches!(crash_of(t, input.as_bytes()).0, Some(ref c2) if same_crash(&c, c2)) };
+        let min = minimize_prog(prog, &pred, 600, &|_| false);
+        return Err(Fail::new(
+            crash_sig(&c, &culprit(&min)),
+            json!({"filter": min, "original_filter": text.chars().take(2000).collect::<String>(), "input": input.chars().take(4000).collect::<String>(), "stage": c.stage, "panic_location": c.loc, "panic_message": c.msg}),
+        ));
     }
-    if cli_sample && cli::cli_available() && text.len() < 100_000 {
-        st.class("cli-sampled");
-        st.evals(1);
-        let fp = cli::write_tmp("c30-filter", text.as_bytes());
-        let ip = cli::write_tmp("c30-input", input.as_bytes());
-        let out = cli::run_with(&cli::cli_path(), &["jq", "-c", "-f", fp.to_str().unwrap_or(""), ip.to_str().unwrap_or("")], None, std::time::Duration::from_secs(10), &[]);
-        let _ = std::fs::remove_file(&fp);
-        let _ = std::fs::remove_file(&ip);
-        if out.timed_out {
-            st.class("cli-timeout-discarded");
-            st.discard();
-        } else if out.crashed() {
-            let err = out.stderr_str();
-            let nesting = err.contains("nesting depth exceeds limit of");
-            if nesting && deep_capable(text, depth, prog.nest) {
-                st.class("documented-nesting-guard-panic");
-            } else {
-                let loc = err.split("panicked at ").nth(1).and_then(|r| r.split(|c| c == ',' || c == '\n').next()).unwrap_or("?").to_string();
-                let msg = err.lines().skip_while(|l| !l.contains("panicked at")).nth(1).unwrap_or("").to_string();
-                let how = match (out.code, out.signal) {
-                    (_, Some(s)) => format!("signal-{}", s),
-                    (Some(c), _) => format!("exit-{}", c),
-                    _ => "?".into(),
-                };
-                let how = if err.contains("overflowed its stack") { "stack-overflow".to_string() } else { how };
-                let mut ids = idents(text);
-                ids.truncate(3);
-                return Err(Fail::new(
-                    format!("C30/cli/{}/{}/{}/{}", how, panic_sig(&loc), norm_msg(&msg), if text.len() < 200 { ids.join("+") } else { "-".into() }),
-                    json!({"filter": text.chars().take(2000).collect::<String>(), "input": input.chars().take(4000).collect::<String>(), "exit": out.code, "signal": out.signal, "stderr_tail": err.chars().rev().take(500).collect::<String>().chars().rev().collect::<String>()}),
-                ));
-            }
-        }
+    if let Some(c) = cli_exit101 {
+        // the release CLI panicked where the in-process evaluation did not
+        return Err(Fail::new(
+            format!("C30/cli/exit-101/{}/{}/{}", loc_sig(&c.loc), norm_msg(&c.msg), if text.len() < 200 { culprit(text) } else { "-".into() }),
+            json!({"filter": text.chars().take(2000).collect::<String>(), "input": input.chars().take(4000).collect::<String>(), "panic_location": c.loc, "panic_message": c.msg, "cli": true}),
+        ));
     }
     Ok(())
+}
+
+/// The case of sub-check `sub` decoded from entropy: (program, input document, sample through the CLI?)
+pub fn gen_case(sub: &str, u: &mut Src, cfg: &Cfg, seeds: &[String]) -> (Prog, J, bool) {
+    let (p, doc, c) = gen_case0(sub, u, cfg, seeds);
+    // Deep inputs make the CLI stop at its documented nesting guard before the program runs, so the
+    // CLI pre-screen says nothing about an abort-prone program there: pair those with shallow input.
+    if (p.extreme || jqprog::extreme_in_text(&p.text)) && doc.depth() >= 100 {
+        return (p, J::Arr(vec![J::int(1), J::Str("a".into()), J::Null]), c);
+    }
+    (p, doc, c)
+}
+
+fn gen_case0(sub: &str, u: &mut Src, cfg: &Cfg, seeds: &[String]) -> (Prog, J, bool) {
+    let doc = gen_input(u);
+    match sub {
+        "gen" => {
+            let p = if u.ratio(1, 4) { jqprog::text_hostile(u, &doc, cfg) } else { jqprog::gen_program(u, &doc, cfg) };
+            let c = u.ratio(1, 16);
+            (p, doc, c)
+        }
+        "extreme" => {
+            let p = jqprog::snippet_program(u, &doc, cfg);
+            let c = u.ratio(1, 16);
+            (p, doc, c)
+        }
+        "deep" => {
+            let p = jqprog::deep_program(u);
+            let c = u.ratio(1, 10);
+            (p, doc, c)
+        }
+        "soup" => {
+            let p = jqprog::soup_program(u);
+            let c = u.ratio(1, 20);
+            (p, doc, c)
+        }
+        _ => {
+            let p = jqprog::mutant_program(u, seeds);
+            let c = u.ratio(1, 20);
+            (p, doc, c)
+        }
+    }
 }
 
 fn replay_input(v: &Value) -> Option<Fail> {
@@ -302,13 +487,31 @@ fn replay_input(v: &Value) -> Option<Fail> {
     prog.text = filter;
     let mut st = Stats::default();
     let cli_too = v["input"]["cli"].as_bool().unwrap_or(false);
-    check_prog(&prog, &doc, &mut st, cli_too).err()
+    check_prog(&prog, &doc, &mut st, cli_too, &[]).err()
 }
 
 pub fn run(cx: &mut Ctx) {
     cx.assume("workers run each case on the process main thread (8 MiB stack, like the CLI) under RLIMIT_AS = 6 GiB; the harness build has overflow-checks and debug-assertions on, the sampled CLI is the release build");
     cx.assume("a panic whose message is the documented guard `nesting depth exceeds limit of N` (MAX_NESTING_DEPTH 256 / MAX_VALUE_TREE_DEPTH 384, doc comments in src/jq/eval_generic.rs and src/jq/value.rs) is tolerated only when the input is >= 200 levels deep or the program can build deep values (loops, recursion, >= 100 levels of literal nesting); watchdog expiry and allocation failures < 2^40 bytes are discarded");
     let seeds = load_seeds();
+    if std::env::var("VH_C30_DUMP_SNIPPETS").is_ok() {
+        for sn in jqprog::HOSTILE_SNIPPETS {
+            println!("{}", sn);
+        }
+        return;
+    }
+    // development aid: VH_C30_SHOW=<entropy replay file> prints the case without running it
+    if let Ok(p) = std::env::var("VH_C30_SHOW") {
+        if let Ok(v) = serde_json::from_str::<Value>(&std::fs::read_to_string(&p).unwrap_or_default()) {
+            let ent = unhex(v["entropy_hex"].as_str().unwrap_or(""));
+            let mut u = Src::new(&ent);
+            let mut cfg = Cfg::new(Profile::Hostile);
+            cfg.max_depth = 4;
+            let (pr, doc, c) = gen_case(v["subcheck"].as_str().unwrap_or("gen"), &mut u, &cfg, &seeds);
+            println!("{}", json!({"filter": pr.text, "input": gjson::to_compact(&doc), "family": pr.family, "cli": c}));
+        }
+        return;
+    }
     if seeds.len() < 400 {
         cx.infra(format!("golden filters not found under {} ({} read)", GOLDEN_DIR, seeds.len()));
         return;
@@ -322,40 +525,29 @@ pub fn run(cx: &mut Ctx) {
     let mut cfg = Cfg::new(Profile::Hostile);
     cfg.max_depth = 4;
     let thorough = cx.tier == Tier::Thorough;
-    let iso = |chunk: u64| IsoOpts { watchdog_s: if thorough { 20 } else { 8 }, rlimit_as_gib: 6, chunk, hang_is_inconclusive: false };
+    let iso = |chunk: u64| IsoOpts { watchdog_s: if thorough { 60 } else { 30 }, rlimit_as_gib: 6, chunk, hang_is_inconclusive: false };
     let cfg = &cfg;
     let seeds = &seeds;
+    let known_v: Vec<String> = cx.known.iter().filter(|k| k.status == "known").map(|k| k.signature.clone()).collect();
+    let known = &known_v;
 
-    cx.check_isolated("gen", RULE, Budget { quick: 16_000, thorough: 2_000_000, max_len: 1400 }, iso(500), |u, st| {
-        let doc = gen_input(u);
-        let p = if u.ratio(1, 4) { jqprog::text_hostile(u, &doc, cfg) } else { jqprog::gen_program(u, &doc, cfg) };
-        let cli_s = u.ratio(1, 16);
-        check_prog(&p, &doc, st, cli_s)
-    });
-    cx.check_isolated("extreme", RULE, Budget { quick: 10_000, thorough: 1_000_000, max_len: 1400 }, iso(250), |u, st| {
-        let doc = gen_input(u);
-        let p = jqprog::snippet_program(u, &doc, cfg);
-        let cli_s = u.ratio(1, 16);
-        check_prog(&p, &doc, st, cli_s)
-    });
-    cx.check_isolated("deep", RULE, Budget { quick: 3_000, thorough: 200_000, max_len: 600 }, iso(100), |u, st| {
-        let doc = gen_input(u);
-        let p = jqprog::deep_program(u);
-        let cli_s = u.ratio(1, 10);
-        check_prog(&p, &doc, st, cli_s)
-    });
-    cx.check_isolated("soup", RULE, Budget { quick: 12_000, thorough: 1_000_000, max_len: 600 }, iso(500), |u, st| {
-        let doc = gen_input(u);
-        let p = jqprog::soup_program(u);
-        let cli_s = u.ratio(1, 20);
-        check_prog(&p, &doc, st, cli_s)
-    });
-    cx.check_isolated("mutant", RULE, Budget { quick: 10_000, thorough: 1_000_000, max_len: 600 }, iso(500), |u, st| {
-        let doc = gen_input(u);
-        let p = jqprog::mutant_program(u, seeds);
-        let cli_s = u.ratio(1, 20);
-        check_prog(&p, &doc, st, cli_s)
-    });
+    for (sub, quick, thorough, max_len, chunk) in [("gen", 8_000u64, 1_000_000u64, 1400usize, 250u64), ("extreme", 4_000, 400_000, 1400, 125), ("deep", 1_500, 100_000, 600, 50), ("soup", 8_000, 600_000, 600, 250), ("mutant", 6_000, 600_000, 600, 250)] {
+        cx.check_isolated(sub, RULE, Budget { quick, thorough, max_len }, iso(chunk), |u, st| {
+            let (p, doc, cli_s) = gen_case(sub, u, cfg, seeds);
+            let r = check_prog(&p, &doc, st, cli_s, known);
+            if let Ok(dir) = std::env::var("VH_C30_TRACE") {
+                let _ = std::fs::remove_file(format!("{}/{}-{}", dir, std::process::id(), st.cur_case));
+            }
+            if let (Err(f), Ok(path)) = (&r, std::env::var("VH_C30_COLLECT")) {
+                use std::io::Write;
+                if let Ok(mut fh) = std::fs::OpenOptions::new().create(true).append(true).open(path) {
+                    let _ = writeln!(fh, "{}\t{}", f.sig, f.detail);
+                }
+                return Ok(());
+            }
+            r
+        });
+    }
     cli::cleanup();
     sweep_dead_tmp(&cx.root);
     for (sub, cl, min) in [("gen", "nontrivial", 200), ("gen", "parses", 1000), ("extreme", "nontrivial", 500), ("extreme", "end:error", 100), ("deep", "nesting>=50", 50), ("deep", "parse-error", 50), ("soup", "parse-error", 500), ("mutant", "parses", 300), ("mutant", "parse-error", 300)] {
